@@ -365,12 +365,15 @@ ROUND12 = {
     "C02": "(S10) a UTF-8 skip from a helper that is exact on all 256 byte values is accepted; (S3e) a closure or private helper that can mark its parameter safe is never handed raw text of a value outside an is_safe() test of that value.",
     "C03": "(L2) loop counters as symbolic expressions of index0; (L3) the else block of a loop is decided by what the iterator yielded.",
     "C04": "(K13) as_const() only ever feeds a LoadConst; (K14) both evaluators insert the pairs of a map literal in source order.",
-    "C05": "B1 neutrality is asked of a compile_* function in the context of its only callers when it is a private piece of them.",
+    "C05": "B1 neutrality is asked of a compile_* function in the context of its only callers when it is a private piece of them; (B5b) a scope handler performs its operation on every path to the next instruction.",
+    "C08": "(N12) the lossy integer-to-float conversion is used only by operators that have no exact integer path.",
+    "C12": "M10: the mode helper dominates the site that iterates or prints the operand and is asked about that operand.",
+    "C19": "(O6b) no write after a failed write in every function that is handed a formatter or the output, closure calls included.",
     "C06": "I10 follows the ExportLocals handler into a private helper.",
     "C07": "(V17) in every two-operand function returning Ordering an inner comparison keeps the orientation of the operands or its verdict is reversed.",
     "C09": "(S7b) an optional bound is not clamped into range.",
     "C10": "(E12) a search resumes one byte past a rejected candidate; E1 judges trimming helpers at their call sites and leaves the blank skips of tag recognisers alone.",
-    "C11": "R1 reads the limit test through a helper shared by check_depth and the charge function.",
+    "C11": "R1 reads the limit test through a helper shared by check_depth and the charge function; R3 counts a call of the evaluation chain by the interpreter loop itself as a re-entry.",
     "C13": "(G10) a function that takes an engine error and returns one never drops the incoming error (the out-of-fuel error stays in the chain).",
     "C14": "(F14) the code that formats an error has no operation that panics on a short slice without a test of the length it relies on; F7 span balance in context.",
     "C16": "(T13) the entries a composite deserializer shows the visitor are computed from the value, never from the names the target type declares.",
@@ -396,7 +399,7 @@ def main():
             if p in ROUND11:
                 text = text + " Rounds 10-11: " + ROUND11[p]
             if p in ROUND12:
-                text = text + " Round 12: " + ROUND12[p]
+                text = text + " Rounds 12-13: " + ROUND12[p]
             checks.append({
                 "property_id": p,
                 "quick_cmd": "./check %s --tier quick" % p,
